@@ -95,7 +95,7 @@ func (r *c18Run) sweepCases() (text, native, ops, simple []*c18Case) {
 				if p.hasDescent() && (v.kind == 'a' || v.kind == 'o') {
 					continue // see genOp: the walk of a descent enters the placed value
 				}
-				ops = append(ops, &c18Case{Family: "ops", Doc: w(doc), Sweep: true, Cell: "one-op", Ops: []c18Op{{Op: "S", Path: pw, Value: w(v), Mode: (vi % 4) + 8*(len(pw)%2)}}})
+				ops = append(ops, &c18Case{Family: "ops", Doc: w(doc), Sweep: true, Cell: "one-op", Ops: []c18Op{{Op: "S", Path: pw, Value: w(v), Mode: (vi % 4) + 8*(len(pw)%2) + 16*((vi+len(pw)/2)%4)}}})
 			}
 		}
 	}
@@ -150,6 +150,83 @@ func (r *c18Run) sweepCases() (text, native, ops, simple []*c18Case) {
 	for _, v := range gvs {
 		for _, val := range []*gv{v, {kind: '[', arr: []*gv{v}}, {kind: '{', keys: []string{"a"}, vals: []*gv{v}}, {kind: '[', arr: []*gv{{kind: '{', keys: []string{"a"}, vals: []*gv{v}}}}} {
 			simple = append(simple, &c18Case{Family: "simplify", GoVal: strings.Join(val.wire(), " "), Sweep: true, Cell: "kind"})
+		}
+	}
+	return
+}
+
+// sweepMulti: every entry point x callback/channel x strict/SEN x input form over fixed small
+// document lists (objects nested in objects and arrays, arrays, scalars), and scan cells.
+func (r *c18Run) sweepMulti() (multi, scan []*c18Case) {
+	lists := [][]*jv{
+		{jObj("id", jInt(1), "sub", jObj("x", jArr(jInt(1), jInt(2))))},
+		{jObj("id", jInt(1), "sub", jObj("x", jArr(jInt(1), jInt(2)))), jObj("id", jInt(2), "sub", jObj("y", jNull())), jArr(jInt(3), jObj("z", jBool(true))), jObj("id", jInt(4))},
+		{jArr(jInt(1), jInt(2)), jArr(jArr(jInt(3)), jObj("a", jArr()))},
+		{jObj("a", jObj("b", jObj("c", jInt(1)))), jObj("a", jObj("b", jObj("c", jInt(2)))), jObj("a", jObj("b", jObj("c", jInt(3))))},
+		{jObj(), jObj("k", jStr("v")), jArr()},
+	}
+	scalars := []*jv{jInt(7), jStr("s"), jNull(), jBool(true), jFlo(1.5)}
+	type ent struct {
+		name    string
+		forms   []int
+		strict  []bool
+		channel []bool
+		single  bool
+		scalars bool
+	}
+	ents := []ent{
+		{"json-parse", []int{0, 1, 2}, []bool{false, true}, []bool{false, true}, false, true},
+		{"discover-json", []int{0, 1, 2}, []bool{false, true}, []bool{false, true}, false, false},
+		{"each-bag", []int{2, 3}, []bool{false}, []bool{false}, false, true},
+		{"bag-read", []int{2}, []bool{false}, []bool{false}, true, true},
+		{"send-read", []int{2}, []bool{false}, []bool{false}, true, true},
+		{"init-read", []int{2}, []bool{false}, []bool{false}, true, true},
+		{"load-bag", []int{3}, []bool{false}, []bool{false}, true, true},
+		{"make-bag", []int{1}, []bool{false}, []bool{false}, true, true},
+	}
+	for _, e := range ents {
+		for _, form := range e.forms {
+			for _, strict := range e.strict {
+				for _, ch := range e.channel {
+					for li, l := range lists {
+						docs := l
+						if e.single {
+							docs = l[:1]
+						}
+						if e.name == "discover-json" && li == 4 {
+							continue // empty containers are not what discover looks for
+						}
+						for _, lay := range []string{"c", "i2"} {
+							cs := &c18Case{Family: "multi", Entry: e.name, Form: form, Strict: strict, Channel: ch, Layout: lay, Sweep: true, Cell: "entry"}
+							for _, d := range docs {
+								cs.Docs = append(cs.Docs, w(d))
+								cs.Seps = append(cs.Seps, "\n")
+							}
+							multi = append(multi, cs)
+						}
+					}
+					if e.scalars {
+						cs := &c18Case{Family: "multi", Entry: e.name, Form: form, Strict: strict, Channel: ch, Layout: "c", Sweep: true, Cell: "entry-scalars"}
+						n := len(scalars)
+						if e.single {
+							n = 1
+						}
+						for _, d := range scalars[:n] {
+							cs.Docs = append(cs.Docs, w(d))
+							cs.Seps = append(cs.Seps, " ")
+						}
+						multi = append(multi, cs)
+					}
+				}
+			}
+		}
+	}
+	for _, d := range []*jv{jInt(7), jNull(), jArr(), jObj(), jObj("a", jArr(jInt(1), jObj("b", jNull(), "c", jArr(), "d", jObj())), "e", jBool(false)),
+		jArr(jArr(jArr(jInt(1))), jStr("x")), jObj("a b", jInt(1), "", jInt(2), "é", jInt(3), "k\"q", jInt(4), "a.b", jInt(5), "[0]", jInt(6))} {
+		for via := 0; via < 2; via++ {
+			for _, leaves := range []bool{false, true} {
+				scan = append(scan, &c18Case{Family: "scan", Doc: w(d), Via: via, Strict: leaves, Sweep: true, Cell: "scan"})
+			}
 		}
 	}
 	return
